@@ -683,7 +683,7 @@ partial def closure (fuel : Nat) (frontier : List (St × List String)) (done : L
     match bodyFails s with
     | some s' => closure fuel ((s', evs) :: rest) done
     | none =>
-    let succs := internalActs.filterMap fun a => (step s a).map fun (s', es) => (s', evs ++ es.map showEv)
+    let succs := (internalActs ++ [Act.tAbort]).filterMap fun a => (step s a).map fun (s', es) => (s', evs ++ es.map showEv)
     if succs.isEmpty then
       let item := (s, ISX.sortStrs evs)
       closure fuel rest (if done.contains item then done else item :: done)
